@@ -335,6 +335,13 @@ def edit_handlers_semantics(w, S, R):
     for (variant, scope), ref in sorted(c07.REF_SCOPES.items()):
         for h in w.handler(variant):
             jobs.append((variant, h, [("v", scope)], ("erase", ref), scope.rsplit("::", 1)[1]))
+    # selectors the statement gives no extent (ED 3 "saved lines" ...): nothing on the screen changes
+    for variant, enum in (("Ed", "parser::EdScope"), ("El", "parser::ElScope")):
+        if enum in w.facts.adts:
+            for v in w.facts.enum_variants(enum):
+                if (variant, "%s::%s" % (enum, v)) not in c07.REF_SCOPES:
+                    for h in w.handler(variant):
+                        jobs.append((variant, h, [("v", "%s::%s" % (enum, v))], ("noop", None), v))
     for variant, kind in (("Ech", "ech"), ("Ich", "ich"), ("Dch", "dch")):
         for h in w.handler(variant):
             for cnt in range(0, cols + 2):
@@ -362,9 +369,7 @@ def edit_handlers_semantics(w, S, R):
                             cs.append("blank")
                         elif isinstance(c, tuple) and c[0] == "sym":
                             cs.append(c[1])
-                        elif kind == "decaln" and isinstance(c, tuple) and c[0] == "v" and "69" in repr(c[2][0]) and "default" in repr(c[2][1]).lower():
-                            cs.append("E")
-                        elif kind == "decaln" and isinstance(c, tuple) and c[0] in ("ext", "v") and "69" in repr(c):
+                        elif kind == "decaln" and isinstance(c, tuple) and c[0] == "v" and "69" in repr(c[2][0]) and prims.is_default_pen(w.facts, c[2][1]):
                             cs.append("E")
                         else:
                             cs.append("?%r" % (c,))
@@ -499,3 +504,395 @@ def print_semantics(w, S, R, h):
                               if (cur["col"], cur["row"], st[R["pending_wrap"]]) != (c_, r_, p_):
                                   return False, "%s: cursor / wrap-pending end as (%s,%s)/%s, the statement gives (%d,%d)/%s" % (desc, cur["col"], cur["row"], st[R["pending_wrap"]], c_, r_, p_)
     return True, n
+
+
+# ---- invariant preservation ---------------------------------------------------------------------------------------
+class MockBufInterp(HandlerInterp):
+    """Handlers evaluated with the screen buffer replaced by its CONTRACT: a buffer object that only carries its
+    geometry; every method of the buffer type is recorded instead of executed; the re-layout sets the geometry and
+    returns an in-bounds cursor (what C10 / C02 decide about the re-layout itself)."""
+
+    def __init__(self, facts, S):
+        super().__init__(facts)
+        self.S = S
+
+    def call_fn(self, path, args):
+        S = self.S
+        a0 = args[0] if args else None
+        if isinstance(a0, tuple) and a0[:2] == ("obj", S.buffer_ty) and a0[2].get("__mock__") and S._impl_of(path) == S.buffer_ty:
+            self.events.append((path, list(args[1:]), "buffer"))
+            if path == S.buffer_resize_fn:
+                nc, nr, pos = args[1], args[2], args[3]
+                same_width = a0[2][S.buf_cols] == nc
+                a0[2][S.buf_cols], a0[2][S.buf_rows] = nc, nr
+                c, r = (pos[1] if isinstance(pos, tuple) and pos[0] == "t" else (0, 0))
+                # contract of the re-layout: the column is re-mapped (into the line) only when the width changes; the row ends inside the view
+                return ("t", (c if same_width or not isinstance(c, int) else min(c, nc - 1), min(r, nr - 1) if isinstance(r, int) else r))
+            out = (self.facts.fns.get(path, {}).get("output") or {}).get("s", "()")
+            return ("t", ()) if out == "()" else ("sym", "result of " + path)
+        return super().call_fn(path, args)
+
+
+def mock_terminal(w, S, R, cols, rows, col, row, **over):
+    me = terminal_obj(w, S, R, cols, rows, col, row, **over)
+    st = me[2]
+    for b in S.buffer_fields:
+        st[b] = ("obj", S.buffer_ty, {"__mock__": True, S.buf_cols: cols, S.buf_rows: rows})
+    return me
+
+
+def state_invariant(st, S, R, cols, rows, strict_pending=True):
+    """-> None | description of the first violated invariant of a terminal state."""
+    cur = st[R["cursor"]]
+    if not (isinstance(cur, tuple) and cur[0] == "obj"):
+        return None
+    c, r = cur[2].get("col"), cur[2].get("row")
+    pw = st[R["pending_wrap"]]
+    if isinstance(c, int) and not 0 <= c <= cols:
+        return "cursor column %d on a %d-column screen" % (c, cols)
+    if isinstance(r, int) and not 0 <= r < rows:
+        return "cursor row %d on a %d-row screen" % (r, rows)
+    if isinstance(c, int) and isinstance(pw, bool):
+        if c == cols and not pw:
+            return "cursor past the last column (col == cols == %d) without wrap-pending" % cols
+        if strict_pending and pw and c != cols:
+            return "wrap-pending set with the cursor at column %d of %d (a state the dump cannot express: it infers a pending wrap from col >= cols)" % (c, cols)
+    tm, bm = st[R["top_margin"]], st[R["bottom_margin"]]
+    if isinstance(tm, int) and isinstance(bm, int):
+        if not (0 <= tm and bm <= rows - 1 and (tm < bm or rows == 1 and tm == bm == 0)):
+            return "scroll region %d..%d on a %d-row screen (needs 0 <= top < bottom <= rows-1)" % (tm, bm, rows)
+    for k in ("saved_ctx", "parked_saved_ctx"):
+        sc = st.get(R[k]) if R[k] else None
+        if isinstance(sc, tuple) and sc[0] == "obj":
+            for fld, lim in (("cursor_col", cols), ("cursor_row", rows)):
+                v = sc[2].get(fld)
+                if isinstance(v, int) and not 0 <= v < lim:
+                    return "saved %s %d outside the %dx%d screen" % (fld, v, cols, rows)
+    ac = st.get(R["active_charset"])
+    cs = st.get(R["charsets"])
+    if isinstance(ac, int) and isinstance(cs, tuple) and cs[0] == "s" and not 0 <= ac < len(cs[1]):
+        return "active character set index %d of %d" % (ac, len(cs[1]))
+    return None
+
+
+def _arg_domain(w, ty, cols, rows):
+    s = ty["s"]
+    if s in ("u16", "usize"):
+        return sorted({0, 1, rows, cols + 1, 65535})
+    if s == "char":
+        return [120]
+    a = ty.get("adt")
+    if a in w.facts.adts and w.facts.adts[a]["kind"] == "enum":
+        vs = w.facts.adts[a]["variants"]
+        return [("v", "%s::%s" % (a, v["name"])) for v in vs if not v.get("fields")]
+    if s.startswith("alloc::vec::Vec<") and ty.get("args") and ty["args"][0].get("adt") in w.facts.adts:
+        a = ty["args"][0]["adt"]
+        if w.facts.adts[a]["kind"] == "enum":
+            return [prims.Vec([("v", "%s::%s" % (a, v["name"]))]) for v in w.facts.adts[a]["variants"] if not v.get("fields")]
+    return None
+
+
+def invariant_preservation(w, S, R, thorough=False):
+    """Every command handler and the resize entry evaluated from states that satisfy the state invariant of C02 / C01
+    (cursor inside the screen or exactly wrap-pending, 0 <= top < bottom <= rows-1, saved cursors inside the screen):
+    the state after the handler satisfies it again.  The buffer is its contract (MockBufInterp).
+    -> (violations [(key, text)], evaluated, skipped {variant: reason})"""
+    import itertools
+    bad, n, skipped = [], 0, {}
+    geoms = [(5, 3), (3, 5)] + ([(2, 2), (4, 4)] if thorough else [])
+    for variant in sorted(w.anchors["function_variants"]):
+        try:
+            hs = w.handler(variant)
+        except Exception:
+            continue
+        for h in hs:
+            ins = w.facts.fns[h].get("inputs", [])[1:]
+            for cols, rows in geoms:
+                doms = [_arg_domain(w, t, cols, rows) for t in ins]
+                if any(d is None for d in doms):
+                    skipped[variant] = "parameter type %s" % [t["s"] for t in ins]
+                    break
+                margins = [(0, rows - 1)] + [m for m in ((1, rows - 1), (0, rows - 2), (1, rows - 2)) if m[0] < m[1]]
+                for (tm, bm) in margins:
+                    for om in (False, True):
+                        for row in sorted({0, tm, bm, rows - 1}):
+                            for col in (0, cols - 1, cols):
+                                for args in itertools.product(*doms):
+                                    over = {R["top_margin"]: tm, R["bottom_margin"]: bm, R["origin_mode"]: om, R["pending_wrap"]: col == cols}
+                                    me = mock_terminal(w, S, R, cols, rows, col, row, **over)
+                                    st = me[2]
+                                    for k in ("saved_ctx", "parked_saved_ctx"):
+                                        sc = st.get(R[k]) if R[k] else None
+                                        if isinstance(sc, tuple) and sc[0] == "obj" and "cursor_col" in sc[2]:
+                                            st[R[k]] = ("obj", sc[1], dict(sc[2], cursor_col=cols - 1, cursor_row=rows - 1))
+                                    it = MockBufInterp(w.facts, S)
+                                    try:
+                                        it.call_fn(h, [me] + [prims.Vec(list(a.items)) if isinstance(a, prims.Vec) else a for a in args])
+                                    except (H.Unsupported, SE.Ret, KeyError, TypeError, AttributeError, IndexError) as ex:
+                                        skipped.setdefault(variant, "outside the evaluated fragment: %s" % (str(ex)[:80],))
+                                        continue
+                                    n += 1
+                                    nc, nr = st.get(R["cols"], cols), st.get(R["rows"], rows)
+                                    msg = state_invariant(st, S, R, nc if isinstance(nc, int) else cols, nr if isinstance(nr, int) else rows)
+                                    if msg and len(bad) < 8 and not any(b[0].startswith(variant + ":") for b in bad):
+                                        shown = [("[%s]" % ", ".join(str(x[1]).rsplit("::", 1)[-1] for x in a.items)) if isinstance(a, prims.Vec) else (str(a[1]).rsplit("::", 1)[-1] if isinstance(a, tuple) else a) for a in args]
+                                        bad.append(("%s:%s" % (variant, msg.split(" (")[0][:60]), "Function::%s%s on a %dx%d screen (margins %d..%d, origin mode %s) with the cursor at (%d,%d)%s leaves the terminal with %s" %
+                                                    (variant, tuple(shown), cols, rows, tm, bm, "on" if om else "off", col, row, " wrap-pending" if col == cols else "", msg)))
+    # the resize entry
+    rz = S.resize_fn
+    for cols, rows in ((4, 4), (5, 3)):
+        for nc in (1, 2, cols, cols + 3):
+            for nr in (1, 2, 3, rows, rows + 2):
+                for (tm, bm) in [(0, rows - 1), (1, rows - 1), (0, rows - 2), (rows - 2, rows - 1)]:
+                    if not tm < bm:
+                        continue
+                    for col, row in ((0, 0), (cols - 1, rows - 1), (cols, rows - 1), (cols, 0)):
+                        me = mock_terminal(w, S, R, cols, rows, col, row, opaque_tabs=True, **{R["top_margin"]: tm, R["bottom_margin"]: bm, R["pending_wrap"]: col == cols})
+                        st = me[2]
+                        for k in ("saved_ctx", "parked_saved_ctx"):
+                            sc = st.get(R[k]) if R[k] else None
+                            if isinstance(sc, tuple) and sc[0] == "obj" and "cursor_col" in sc[2]:
+                                st[R[k]] = ("obj", sc[1], dict(sc[2], cursor_col=cols - 1, cursor_row=rows - 1))
+                        it = MockBufInterp(w.facts, S)
+                        try:
+                            it.call_fn(rz, [me, nc, nr])
+                        except (H.Unsupported, SE.Ret, KeyError, TypeError, AttributeError, IndexError) as ex:
+                            skipped.setdefault("resize", "outside the evaluated fragment: %s" % (str(ex)[:80],))
+                            continue
+                        n += 1
+                        # after a width change the cursor is what the re-layout returned (in bounds by contract): wrap-pending must be clear then
+                        msg = state_invariant(st, S, R, nc, nr, strict_pending=True)
+                        if st.get(R["cols"]) != nc or st.get(R["rows"]) != nr:
+                            msg = "size %sx%s after resize(%d, %d)" % (st.get(R["cols"]), st.get(R["rows"]), nc, nr)
+                        # the parked context belongs to the other screen and is clamped lazily (on the switch back): only the showing one is demanded here
+                        if msg and "saved" in msg:
+                            sc = st.get(R["saved_ctx"])
+                            ok_show = isinstance(sc, tuple) and sc[0] == "obj" and 0 <= sc[2].get("cursor_col", 0) < nc and 0 <= sc[2].get("cursor_row", 0) < nr
+                            if ok_show:
+                                msg = None
+                        if msg and not any(b[0].startswith("resize:") for b in bad):
+                            bad.append(("resize:%s" % msg.split(" (")[0][:60], "resize(%d, %d) of a %dx%d terminal (margins %d..%d, cursor (%d,%d)%s) leaves the terminal with %s" % (nc, nr, cols, rows, tm, bm, col, row, " wrap-pending" if col == cols else "", msg)))
+    return bad, n, skipped
+
+
+# ---- per-mode decision table of SM / RM / DECSET / DECRST ------------------------------------------------------------------
+def _snapshot(st, S, R):
+    out = {}
+    for k, v in st.items():
+        if k == R["cursor"] and isinstance(v, tuple) and v[0] == "obj":
+            for f, x in v[2].items():
+                out["cursor." + f] = repr(x)
+        elif k in S.buffer_fields:
+            out[k] = v[2].get("__tag__", "FRESH") if isinstance(v, tuple) and v[0] == "obj" else repr(v)
+        elif k == S.dirty_field:
+            continue
+        else:
+            out[k] = repr(v)
+    return out
+
+
+def mode_semantics(w, S, R):
+    """SM / RM / DECSET / DECRST evaluated one mode at a time (buffer = its contract) for both screens, both prior values of
+    the flag, cursor in the middle / wrap-pending, origin mode on / off with a partial scroll region: each mode changes
+    exactly the components its specification names (frame), with the specified values.  -> [(key, text)], evaluated"""
+    cols, rows = 5, 4
+    bad, n = [], 0
+    tfield = [f for f in w.facts.struct_fields(S.term_ty) if f["name"] == R["active_buffer_type"]][0]
+    tadt = tfield["ty"].get("adt")
+    PRIM, ALT = ("v", "%s::Primary" % tadt), ("v", "%s::Alternate" % tadt)
+    ckf = R["cursor_keys_mode"]
+    ck_adt = [f for f in w.facts.struct_fields(S.term_ty) if f["name"] == ckf][0]["ty"].get("adt")
+    ck0 = default_state(w, S, R, cols, rows).get(ckf)
+    ck_other = [("v", "%s::%s" % (ck_adt, v)) for v in w.facts.enum_variants(ck_adt) if ("v", "%s::%s" % (ck_adt, v)) != ck0]
+    CUR = {"cursor.col", "cursor.row", R["pending_wrap"]}
+    RESTORE = CUR | {R["pen"], R["origin_mode"], R["auto_wrap_mode"]}
+    SWITCH = {R["active_buffer_type"], R["saved_ctx"], R["parked_saved_ctx"], S.active_buffer, S.parked_buffer}
+    flag = {"Origin": R["origin_mode"], "AutoWrap": R["auto_wrap_mode"], "Insert": R["insert_mode"], "NewLine": R["new_line_mode"]}
+    jobs = []
+    for fam, mode_enum, hs_set, hs_rst in (("dec", "parser::DecMode", "Decset", "Decrst"), ("ansi", "parser::AnsiMode", "Sm", "Rm")):
+        if mode_enum not in w.facts.adts:
+            continue
+        for var in w.facts.enum_variants(mode_enum):
+            for setting, hv in ((True, hs_set), (False, hs_rst)):
+                for h in w.handler(hv):
+                    jobs.append((mode_enum, var, setting, hv, h))
+    for mode_enum, var, setting, hv, h in jobs:
+        for showing in (PRIM, ALT):
+            for prior in (False, True):
+                for (col, row) in ((2, 2), (cols, 0)):
+                    for om in (False, True):
+                        over = {R["top_margin"]: 1, R["bottom_margin"]: rows - 2, R["origin_mode"]: om, R["pending_wrap"]: col == cols}
+                        me = mock_terminal(w, S, R, cols, rows, col, row, **over)
+                        st = me[2]
+                        st[S.active_buffer][2]["__tag__"] = "SHOWING"
+                        st[S.parked_buffer][2]["__tag__"] = "PARKED"
+                        st[R["active_buffer_type"]] = showing
+                        if var in flag:
+                            st[flag[var]] = prior if var != "Origin" else om
+                        if var == "CursorKeys" and prior and ck_other:
+                            st[ckf] = ck_other[0]
+                        if var == "TextCursorEnable":
+                            st[R["cursor"]][2]["visible"] = prior
+                        # distinguishable saved contexts, inside the screen
+                        for k, (cc, rr) in ((R["saved_ctx"], (1, 3)), (R["parked_saved_ctx"], (3, 1))):
+                            sc = st.get(k)
+                            if isinstance(sc, tuple) and sc[0] == "obj":
+                                d = dict(sc[2])
+                                ints = [f for f, x in d.items() if isinstance(x, int) and not isinstance(x, bool)]
+                                for f, x in zip(sorted(ints), (cc, rr)):
+                                    d[f] = x
+                                st[k] = ("obj", sc[1], d)
+                        before = _snapshot(st, S, R)
+                        it = MockBufInterp(w.facts, S)
+                        try:
+                            it.call_fn(h, [me, prims.Vec([("v", "%s::%s" % (mode_enum, var))])])
+                        except (H.Unsupported, SE.Ret, KeyError, TypeError, AttributeError, IndexError) as ex:
+                            bad.append(("%s:%s:eval" % (hv, var), "cannot evaluate %s for mode %s: %s" % (h, var, ex)))
+                            break
+                        n += 1
+                        after = _snapshot(st, S, R)
+                        changed = {k for k in set(before) | set(after) if before.get(k) != after.get(k)}
+                        is_prim = showing == PRIM
+                        frame, req = set(), {}
+                        if var in ("AutoWrap", "Insert", "NewLine"):
+                            frame = {flag[var]}
+                            req = {flag[var]: repr(setting)}
+                        elif var == "Origin":
+                            frame = {flag[var]} | CUR
+                            req = {flag[var]: repr(setting), "cursor.col": "0", "cursor.row": repr(1 if setting else 0), R["pending_wrap"]: "False"}
+                        elif var == "CursorKeys":
+                            frame = {ckf}
+                            req = {ckf: repr(ck_other[0] if setting else ck0)} if ck_other else {}
+                        elif var == "TextCursorEnable":
+                            frame = {"cursor.visible"}
+                            req = {"cursor.visible": repr(setting)}
+                        elif var == "AltScreenBuffer":
+                            if setting == is_prim:
+                                frame = set(SWITCH)
+                                req = {R["active_buffer_type"]: repr(ALT if setting else PRIM), R["saved_ctx"]: before[R["parked_saved_ctx"]], R["parked_saved_ctx"]: before[R["saved_ctx"]]}
+                                req.update({S.active_buffer: "FRESH", S.parked_buffer: "SHOWING"} if setting else {S.active_buffer: "PARKED", S.parked_buffer: "SHOWING"})
+                        elif var == "SaveCursor":
+                            frame = {R["saved_ctx"]} if setting else set(RESTORE)
+                            if not setting:
+                                req = {R["pending_wrap"]: "False"}
+                        elif var == "SaveCursorAltScreenBuffer":
+                            if setting:
+                                frame = {R["saved_ctx"]} | (SWITCH if is_prim else set())
+                                if is_prim:
+                                    req = {R["active_buffer_type"]: repr(ALT), R["saved_ctx"]: before[R["parked_saved_ctx"]], S.active_buffer: "FRESH", S.parked_buffer: "SHOWING"}
+                            else:
+                                frame = set(RESTORE) | (SWITCH if not is_prim else set())
+                                req = {R["pending_wrap"]: "False"}
+                                if not is_prim:
+                                    req.update({R["active_buffer_type"]: repr(PRIM), R["saved_ctx"]: before[R["parked_saved_ctx"]], R["parked_saved_ctx"]: before[R["saved_ctx"]],
+                                                S.active_buffer: "PARKED", S.parked_buffer: "SHOWING"})
+                        else:
+                            frame = None          # a mode this table does not know: not judged
+                        if frame is None:
+                            continue
+                        desc = "%s %s with the %s screen showing, flag previously %s, origin mode %s, cursor (%d,%d)%s" % (
+                            hv.upper(), var, "primary" if is_prim else "alternate", "on" if prior else "off", "on" if om else "off", col, row, " wrap-pending" if col == cols else "")
+                        key = None
+                        extra = sorted(changed - frame)
+                        if extra:
+                            key, text = "%s:%s:frame:%s" % (hv, var, extra[0]), "%s changes %s, which this mode must leave alone (it may change only %s)" % (desc, extra, sorted(frame))
+                        else:
+                            for k, want in sorted(req.items()):
+                                if after.get(k) != want:
+                                    key, text = "%s:%s:value:%s" % (hv, var, k), "%s leaves %s = %s, the specification gives %s" % (desc, k, after.get(k), want)
+                                    break
+                        if not key and var in ("AltScreenBuffer", "SaveCursorAltScreenBuffer") and S.active_buffer in changed:
+                            # nothing of the buffer being parked / discarded is reused: the only buffer calls allowed are on the buffer that ends up showing
+                            pass
+                        if key and not any(b[0] == key for b in bad):
+                            bad.append((key, text))
+                    else:
+                        continue
+                    break
+                else:
+                    continue
+                break
+            else:
+                continue
+            break
+    return bad, n
+
+
+# ---- decision table of the scrolling commands ----------------------------------------------------------------------------
+def scroll_handlers_semantics(w, S, R, up, down):
+    """SU / SD / IL / DL / LF / NEL / RI evaluated with the buffer opaque (every call on it recorded) on a 4x6 terminal for
+    every margin pair, cursor row, count class (0, 1, 2, height-1, height, height+1, 65535): the command makes exactly the
+    scroll-primitive call the C06 statement implies - primitive, range (region; cursor row .. bottom margin / last row),
+    a count that the primitive's own cap turns into min(n, height) with n = max(parameter, 1), the current pen - or none
+    at all, and moves the cursor only as specified.  -> [(key, text)], evaluated"""
+    cols, rows = 4, 6
+    bad, n = [], 0
+    margins = sorted({(t, b) for t in range(rows) for b in range(t + 1, rows)})
+    kinds = {"Su": "su", "Sd": "sd", "Il": "il", "Dl": "dl", "Lf": "lf", "Nel": "nel", "Ri": "ri"}
+    for variant, kind in sorted(kinds.items()):
+        try:
+            hs = w.handler(variant)
+        except Exception:
+            continue
+        for h in hs:
+            arity = len(w.facts.fns[h].get("inputs", [])) - 1
+            for (tm, bm) in margins:
+                height = bm - tm + 1
+                counts = sorted({0, 1, 2, height - 1, height, height + 1, 65535}) if arity == 1 else [None]
+                for row in range(rows):
+                    for col in (1, cols):
+                        for nl in ((False, True) if kind == "lf" else (False,)):
+                            for cnt in counts:
+                                over = {R["top_margin"]: tm, R["bottom_margin"]: bm, R["pending_wrap"]: col == cols, R["new_line_mode"]: nl}
+                                try:
+                                    ev, me = run_handler(w, S, R, h, [cnt] if arity == 1 else [], cols, rows, col, row, **over)
+                                except (H.Unsupported, SE.Ret, KeyError, TypeError, AttributeError) as ex:
+                                    return [("%s:eval" % variant, "cannot evaluate %s: %s" % (h, ex))], n
+                                n += 1
+                                st = me[2]
+                                cur = st[R["cursor"]][2]
+                                calls = [(e[0], e[1]) for e in ev if e[2] == "buffer"]
+                                nn = max(cnt, 1) if cnt is not None else 1
+                                want_call, wc, wr, wp = None, col, row, col == cols
+                                if kind in ("su", "sd"):
+                                    want_call = (up if kind == "su" else down, (tm, bm + 1), nn)
+                                elif kind in ("il", "dl"):
+                                    want_call = (down if kind == "il" else up, (row, bm + 1 if row <= bm else rows), nn)
+                                elif kind in ("lf", "nel"):
+                                    if row == bm:
+                                        want_call = (up, (tm, bm + 1), 1)
+                                    elif row < rows - 1:
+                                        wr = row + 1
+                                    if kind == "nel" or nl:
+                                        wc, wp = 0, False
+                                    elif wr != row:
+                                        # a vertical move leaves the wrap-pending column (C05)
+                                        wc, wp = min(col, cols - 1), False
+                                elif kind == "ri":
+                                    if row == tm:
+                                        want_call = (down, (tm, bm + 1), 1)
+                                    elif row > 0:
+                                        wr = row - 1
+                                        wc, wp = min(col, cols - 1), False
+                                desc = "%s%s on a %dx%d screen, margins %d..%d, cursor (%d,%d)%s%s" % (variant.upper(), "" if cnt is None else " %d" % cnt, cols, rows, tm, bm, col, row, " wrap-pending" if col == cols else "", ", new-line mode" if nl else "")
+                                key = text = None
+                                if want_call is None:
+                                    if calls:
+                                        key, text = "%s:scrolls" % variant, "%s calls %s although nothing may scroll here" % (desc, [c[0] for c in calls])
+                                else:
+                                    fn_, (lo, hi), cnt_w = want_call
+                                    okc = len(calls) == 1 and calls[0][0] == fn_ and len(calls[0][1]) >= 3
+                                    if okc:
+                                        rg, got_n, pen = calls[0][1][0], calls[0][1][1], calls[0][1][2]
+                                        okc = isinstance(rg, tuple) and rg[0] == "range" and (rg[1], rg[2] + (1 if rg[3] else 0)) == (lo, hi) and isinstance(got_n, int) \
+                                            and min(got_n, hi - lo) == min(cnt_w, hi - lo) and pen == PEN
+                                    if not okc:
+                                        key, text = "%s:call" % variant, "%s makes the buffer calls %s; the statement implies one call of %s on rows %d..%d by min(%d, %d) in the current pen" % (
+                                            desc, [(c[0].rsplit("::", 1)[-1], c[1][:2]) for c in calls], fn_.rsplit("::", 1)[-1], lo, hi, cnt_w, hi - lo)
+                                if not key and kind in ("su", "sd", "il", "dl") and ((cur["col"], cur["row"]) != (col, row)):
+                                    key, text = "%s:cursor" % variant, "%s moves the cursor to (%s,%s)" % (desc, cur["col"], cur["row"])
+                                if not key and kind in ("lf", "nel", "ri") and ((cur["col"], cur["row"]) != (wc, wr) or (st[R["pending_wrap"]] != wp and (wr != row or wc != col))):
+                                    key, text = "%s:cursor" % variant, "%s ends at (%s,%s) wrap-pending=%s, the statement gives (%d,%d)" % (desc, cur["col"], cur["row"], st[R["pending_wrap"]], wc, wr)
+                                if key and not any(b_[0] == key for b_ in bad):
+                                    bad.append((key, text))
+    return bad, n
